@@ -31,7 +31,7 @@ const RUNTIME_FAULTS: &[&str] = &["a > [+root]", "a > [-manner]", "a > [+place]"
     "a % > &", "% $ > &", "a > ⟨t ..⟩", "a > ⟨t [+voice]⟩", "* > ⟨..⟩ / a _", "* > a", "* > e / :{ a _, _ a }:", "a > e / 1 _", "a:[αround] > [αdor]", "a:[αlab] > [αround, αcor]",
     "% > ⟨⟩", "$ > [+stress]", "a > ⟨1⟩ / %=1 _", "a =1 > 1",
     // unbalanced condensed rules: inputs, outputs, environments and exceptions that are neither one nor as many as the rest
-    "p, t, k > b, d", "p, t > b, d, g", "p, t, k > b, d, g / _a, _e", "p, t, k > b, d, g | _a, _e", "p, t, k > b, d, g // _a, _e",
+    "p, t, k > b, d", "p, t > b, d, g", "p, t, k > b, d, g / _a, _e", "p, t, k > b, d, g | _a, _e", "p, t, k > b, d, g // _a, _e", "a, e, i > o / _,#", "a, e, i > o / _,t", "p, t, k > b, d, g | _,$", "a, e, i > o, u / _,#", "a, e, i > o / _,# | _,t",
     "p, t, k > b, d, g / _a | _e, _i", "p, t, k > b, d, g / _a, _e | _i", "p, t, k > b, d, g / _a, _e, _i | _a, _e", "a, e > i, o, u / _#, _$"];
 
 const SYNTAX_MUTATIONS: &[(&str, &str)] = &[(">", ""), (">", ">>"), ("_", "_ _"), ("[", "[["), ("]", ""), ("{", ""), ("}", "}}"), ("(", ""), (")", ""), ("/", "/ /"), ("+", "?"), ("a", "ʘʘ"),
